@@ -466,6 +466,10 @@ where
     if rep.violated() {
         return;
     }
+    // debugging aid: RV_SKIP_SUB=<name> leaves out one sub-check (to compare the others with an earlier run)
+    if std::env::var("RV_SKIP_SUB").map(|s| s == sub).unwrap_or(false) {
+        return;
+    }
     let workers = workers.max(1);
     let per = cases.div_ceil(workers as u32);
     let reports: Vec<Report> = std::thread::scope(|scope| {
